@@ -293,6 +293,9 @@ structure Script where
     -- `some k`: the file system accepts `k` bytes in the temp file and refuses the next one (ENOSPC,
     -- EFBIG, EDQUOT …): a write crossing byte `k` is cut short there and the following `write` is an error
   syncOk : Bool := true -- `sync_all` succeeds (`false`: fsync reports EIO / ENOSPC / EINVAL …)
+  createOk : Bool := true
+    -- `File::create(temp)` succeeds (`false`: the destination's parent directory is missing, not
+    -- writable, … — `TempFile::create(..)?` is the first statement that touches the file system)
   deriving DecidableEq, Repr
 
 /-- `check_output`: the `.beve.zst` output needs a zstd stream, the `.beve` output a zstd BEVE stream;
@@ -302,6 +305,9 @@ def tagsOk (p : Puller) (s : Script) : Bool :=
   | .beveZst => s.comp == .zstd
   | .beve => s.comp == .zstd && s.beve
   | _ => true
+
+/-- Everything that must hold before the first write: compatible tags and a creatable temp file. -/
+def preOk (p : Puller) (s : Script) : Bool := tagsOk p s && s.createOk
 
 def pulled (p : Puller) (s : Script) : Pulled :=
   if p.isAsync then asyncPull s.wire
@@ -352,13 +358,13 @@ def envOf (p : Puller) (s : Script) (codec : Codec) : Env :=
 /-- A pull-to-file call: nothing touches the filesystem unless `open` succeeded and the output is
 compatible with the stream's tags. -/
 def run (f : StepFacts) (p : Puller) (s : Script) (codec : Codec) : Run :=
-  if s.openOk && tagsOk p s then interp (envOf p s codec) false (f.of p) else ⟨[], .err⟩
+  if s.openOk && preOk p s then interp (envOf p s codec) false (f.of p) else ⟨[], .err⟩
 
 /-- Specification: the content a pull must publish — `none` for every failing script (open failed,
 incompatible tags, no `last` chunk reached, undecodable stream, stream shorter than the trailer,
 verification rejected, rename refused, a write or the fsync refused by the file system). -/
 def expected (p : Puller) (s : Script) (codec : Codec) : Option Bytes :=
-  if s.openOk && tagsOk p s && (!p.verifies || s.verifyOk) && s.renameOk && s.syncOk then
+  if s.openOk && preOk p s && (!p.verifies || s.verifyOk) && s.renameOk && s.syncOk then
     match payloadN (if p.usesWriteFile then s.stop else none) s.wire with
     | none => none
     | some wb =>
